@@ -293,33 +293,40 @@ Definition print_float (sp : nspec) (s : bool) (m : N) (e : Z) : text :=
    white space, sign, digits [. digits] (at least one digit), optional exponent e[sign]digits
    (taken only when complete).  Result: sign, decimal mantissa, decimal exponent
    (value = mant * 10^dexp), characters consumed. *)
+Definition scan_mantissa (r2 : text) (n2 : nat) : N * nat * nat * text * nat :=
+  let '(ipart, ki, r3) := scan_digits 10 r2 0 O in
+  match r3 with
+  | c :: r => if c =? c_dot
+              then let '(m, k, r') := scan_digits 10 r ipart O in (m, ki, k, r', S (n2 + ki + k)%nat)
+              else (ipart, ki, O, r3, (n2 + ki)%nat)
+  | [] => (ipart, ki, O, r3, (n2 + ki)%nat)
+  end.
+
+(* e[sign]digits, taken only when at least one digit follows *)
+Definition scan_exponent (r4 : text) (n4 : nat) : option (Z * nat) :=
+  match r4 with
+  | c :: r =>
+    if (c =? c_e) || (c =? c_E) then
+      let '(eneg, r5, n5) := scan_sign r (S n4) in
+      let '(ev, ke, _) := scan_digits 10 r5 0 O in
+      match ke with
+      | O => None
+      | _ => Some (if eneg then (- Z.of_N ev)%Z else Z.of_N ev, (n5 + ke)%nat)
+      end
+    else None
+  | [] => None
+  end.
+
 Definition scan_float_text (inp : text) : option (bool * N * Z * nat) :=
   let '(r1, n1) := skip_ws inp 0 in
   let '(neg, r2, n2) := scan_sign r1 n1 in
-  let '(ipart, ki, r3) := scan_digits 10 r2 0 O in
-  let '(mant, kf, r4, n4) :=
-    match r3 with
-    | c :: r => if c =? c_dot
-                then let '(m, k, r') := scan_digits 10 r ipart O in (m, k, r', S (n2 + ki + k)%nat)
-                else (ipart, O, r3, (n2 + ki)%nat)
-    | [] => (ipart, O, r3, (n2 + ki)%nat)
-    end in
+  let '(mant, ki, kf, r4, n4) := scan_mantissa r2 n2 in
   match (ki + kf)%nat with
   | O => None
-  | _ =>
-    let noexp := Some (neg, mant, (- Z.of_nat kf)%Z, n4) in
-    match r4 with
-    | c :: r =>
-      if (c =? c_e) || (c =? c_E) then
-        let '(eneg, r5, n5) := scan_sign r (S n4) in
-        let '(ev, ke, _) := scan_digits 10 r5 0 O in
-        match ke with
-        | O => noexp
-        | _ => Some (neg, mant, ((if eneg then - Z.of_N ev else Z.of_N ev) - Z.of_nat kf)%Z, (n5 + ke)%nat)
-        end
-      else noexp
-    | [] => noexp
-    end
+  | _ => match scan_exponent r4 n4 with
+         | Some (ev, n5) => Some (neg, mant, (ev - Z.of_nat kf)%Z, n5)
+         | None => Some (neg, mant, (- Z.of_nat kf)%Z, n4)
+         end
   end.
 
 (* floor (log2 (p / q)) for p, q > 0 *)
